@@ -534,9 +534,13 @@ def symvals_from_sample(decls, sample):
         vals = [mpf(v) for v in sample[d.name]]
         if d.kind == 'unit4':
             x, y, z, w = vals
-            r = 1 - x * x - y * y - z * z
-            w = mpmath.sqrt(r) * (1 if w >= 0 else -1) if r >= 0 else mpf(0)
-            vals = [x, y, z, w]
+            if w == 0:                      # exact half turn: keep w = 0, make (x, y, z) exactly unit
+                n = mpmath.sqrt(x * x + y * y + z * z)
+                vals = [x / n, y / n, z / n, mpf(0)]
+            else:
+                r = 1 - x * x - y * y - z * z
+                w = mpmath.sqrt(r) * (1 if w >= 0 else -1) if r >= 0 else mpf(0)
+                vals = [x, y, z, w]
         for vid, v in zip(d.vids, vals): sv[vid] = v
     return sv
 
